@@ -72,10 +72,14 @@ type dtState struct {
 	storeC  map[string]constant.Value // address key -> const
 	path    *dtPath
 	visited map[*ssa.BasicBlock]bool
+	alias   map[ssa.Value]ssa.Value // boolean phi -> the value of the edge taken (so that evalCond can look through `a && b` built as a value)
 }
 
 func (s *dtState) clone() *dtState {
-	n := &dtState{env: map[ssa.Value]string{}, consts: map[ssa.Value]constant.Value{}, store: map[string]string{}, storeC: map[string]constant.Value{}, visited: map[*ssa.BasicBlock]bool{}}
+	n := &dtState{env: map[ssa.Value]string{}, consts: map[ssa.Value]constant.Value{}, store: map[string]string{}, storeC: map[string]constant.Value{}, visited: map[*ssa.BasicBlock]bool{}, alias: map[ssa.Value]ssa.Value{}}
+	for k, v := range s.alias {
+		n.alias[k] = v
+	}
 	for k, v := range s.env {
 		n.env[k] = v
 	}
@@ -115,7 +119,7 @@ func EnumeratePaths(c *Ctx, fn *ssa.Function, cfg *dtConfig) []*dtPath {
 		cfg.MaxPaths = 4096
 	}
 	w := &dtWalker{c: c, fn: fn, cfg: cfg}
-	st := &dtState{env: map[ssa.Value]string{}, consts: map[ssa.Value]constant.Value{}, store: map[string]string{}, storeC: map[string]constant.Value{}, visited: map[*ssa.BasicBlock]bool{},
+	st := &dtState{env: map[ssa.Value]string{}, consts: map[ssa.Value]constant.Value{}, store: map[string]string{}, storeC: map[string]constant.Value{}, visited: map[*ssa.BasicBlock]bool{}, alias: map[ssa.Value]ssa.Value{},
 		path: &dtPath{Assume: map[string]string{}, know: map[string]*dtKnow{}, Locals: map[string]string{}}}
 	for k, v := range cfg.Preset {
 		vv := v
@@ -199,6 +203,11 @@ func (w *dtWalker) walk(st *dtState, b *ssa.BasicBlock, pred *ssa.BasicBlock) {
 			for i, p := range b.Preds {
 				if p == pred {
 					e := x.Edges[i]
+					if bt, isB := x.Type().Underlying().(*types.Basic); isB && bt.Kind() == types.Bool {
+						if _, isConst := e.(*ssa.Const); !isConst {
+							st.alias[x] = e
+						}
+					}
 					if cv, ok := w.constOfVal(st, e); ok {
 						st.consts[x] = cv
 						st.env[x] = cv.ExactString()
@@ -434,7 +443,15 @@ func (w *dtWalker) exec(st *dtState, in ssa.Instruction) {
 			st.env[x] = fmt.Sprintf("%s#%d", k, x.Index)
 		}
 	case *ssa.BinOp:
-		// comparisons handled lazily in evalCond; keyed otherwise
+		// comparisons handled lazily in evalCond; folded here when both sides are known constants
+		switch x.Op {
+		case token.EQL, token.NEQ, token.LSS, token.LEQ, token.GTR, token.GEQ:
+			lc, lok := w.constOfVal(st, x.X)
+			rc, rok := w.constOfVal(st, x.Y)
+			if lok && rok && lc.Kind() == rc.Kind() && lc.Kind() != constant.Unknown {
+				st.consts[x] = constant.MakeBool(constant.Compare(lc, x.Op, rc))
+			}
+		}
 		l, r := w.keyOf(st, x.X), w.keyOf(st, x.Y)
 		if l != "" && r != "" {
 			st.env[x] = "(" + l + x.Op.String() + r + ")"
@@ -663,6 +680,20 @@ func (w *dtWalker) assume(st *dtState, key, kind string, cval constant.Value, tr
 // evalCond: returns "true"/"false"/"fork"/"" with literal description.
 func (w *dtWalker) evalCond(st *dtState, cond ssa.Value) (string, string, string, constant.Value) {
 	v, neg := unwrapNot(cond)
+	for i := 0; i < 8; i++ {
+		a, ok := st.alias[v]
+		if !ok {
+			break
+		}
+		if _, known := w.constOfVal(st, v); known {
+			break
+		}
+		inner, n2 := unwrapNot(a)
+		v = inner
+		if n2 {
+			neg = !neg
+		}
+	}
 	flip := func(s string) string {
 		if !neg {
 			return s
